@@ -277,6 +277,85 @@ def gen_compat_cases(rng, n, big):
     return lines, stats
 
 
+def plant_defect(rng, sch, msg):
+    """plant ONE defect of the kinds C19 lists at a random position that serialisation needs; returns
+    (new message, description) or None"""
+    import copy
+    new = copy.deepcopy(msg)
+    cands = []
+
+    def walk(mm):
+        md = sch.msgs[mm['ty']]
+        for i, (f, s) in enumerate(zip(md.fields, mm['slots'])):
+            if s[0] == 'rep':
+                vals = (s[2] or [])[:s[1]]
+                if s[1] > 0 and f.label == L_REP:
+                    cands.append((mm, i, None, 'array'))
+                for k, v in enumerate(vals):
+                    if f.type in (T_STRING, T_MESSAGE):
+                        cands.append((mm, i, k, 'nullelem'))
+                    if f.type == T_BYTES:
+                        cands.append((mm, i, k, 'bytes'))
+                    if f.type == T_MESSAGE and v[1] is not None:
+                        walk(v[1])
+            else:
+                if not is_present(f, s) and f.label != L_REQ:
+                    continue
+                if f.label == L_REQ and f.type in (T_STRING, T_MESSAGE):
+                    cands.append((mm, i, None, 'reqnull'))
+                if f.type == T_BYTES:
+                    cands.append((mm, i, None, 'bytes'))
+                if f.type == T_MESSAGE and s[2][0] == 'msg' and s[2][1] is not None:
+                    walk(s[2][1])
+    walk(new)
+    if not cands:
+        return None
+    mm, i, k, kind = rng.choice(cands)
+    f = sch.msgs[mm['ty']].fields[i]
+    s = list(mm['slots'][i])
+    if kind == 'array':
+        s[2] = None
+    elif kind == 'nullelem':
+        s[2] = list(s[2]); s[2][k] = ('str', 'N', b'') if f.type == T_STRING else ('msg', None)
+    elif kind == 'reqnull':
+        s[2] = ('str', 'N', b'') if f.type == T_STRING else ('msg', None)
+    elif kind == 'bytes':
+        n = rng.choice([1, 2, 5, 127, 128])
+        if k is None:
+            s[2] = ('bin', n, 'N', b'')
+            if f.label == L_OPT and not f.oneof:
+                s[1] = rng.choice([1, 1, 2, 255])      # any non-zero has_ value means present for pack()
+        else:
+            s[2] = list(s[2]); s[2][k] = ('bin', n, 'N', b'')
+    mm['slots'][i] = tuple(s)
+    return new, '%s in field %d (type %s, label %d%s)' % (kind, f.id, TYPE_NAMES[f.type], f.label, ', oneof' if f.oneof else '')
+
+
+def gen_defect_cases(rng, n, big):
+    lines, stats = [], {'schemas': 0, 'well_formed': 0, 'defective': 0, 'kinds': {}}
+    while stats['well_formed'] + stats['defective'] < n:
+        sch = rand_schema(rng, big=big, types=[T_STRING, T_BYTES, T_MESSAGE] * 3 + list(range(17)), nmsgs=rng.choice([2, 3]))
+        lines += sch.lines()
+        stats['schemas'] += 1
+        for _ in range(rng.choice([4, 8])):
+            ty = rng.randrange(len(sch.msgs))
+            m = rand_msg(rng, sch, ty, big=False)
+            l = lit(sch, m)
+            lines.append('check %s #expect=1' % l)
+            lines.append('pack ' + l)
+            stats['well_formed'] += 1
+            for _ in range(3):
+                r = plant_defect(rng, sch, m)
+                if r is None:
+                    break
+                d, what = r
+                lines.append('check %s #expect=0 #%s' % (lit(sch, d), what.replace(' ', '_')))
+                stats['defective'] += 1
+                k = what.split()[0]
+                stats['kinds'][k] = stats['kinds'].get(k, 0) + 1
+    return lines, stats
+
+
 def u_bounds(w):
     return pbgen.B32 if w == 32 else pbgen.B64
 
@@ -391,6 +470,8 @@ def main():
         lines, stats = gen_valid_cases(rng, n, big, True)
     elif kind == 'compat':
         lines, stats = gen_compat_cases(rng, n, big)
+    elif kind == 'defect':
+        lines, stats = gen_defect_cases(rng, n, big)
     elif kind == 'alloc':
         lines, stats = gen_alloc_cases(rng, n, big, False)
     elif kind == 'fault':
